@@ -234,7 +234,7 @@ def shapes(ck):
         for h in range(0, 7):
             yield (w, h, "small")
     for w in CRIT_W:
-        for h in (1, 2, 3):
+        for h in ((1, 2, 3, 4, 5) if thorough else (1, 2, 3)):
             yield (w, h, "crit")
     # the repaired defect F-C04-1 lives at 1-bit widths that are not a multiple of 8
     for w in (7, 9, 10, 15, 17, 23, 1001):
@@ -243,7 +243,7 @@ def shapes(ck):
     if thorough:
         for w in HUGE_W:
             yield (w, 1, "huge")
-        for _ in range(160):
+        for _ in range(400):
             yield (ck.rng.randint(1, 64), ck.rng.randint(1, 64), "rand")
     else:
         yield (16384, 1, "huge")
@@ -295,8 +295,8 @@ def mutate(ck, s):
 def run():
     logging.getLogger("psd_tools").setLevel(logging.CRITICAL)
     ck = Check("C04")
-    ck.rule = ("shapes: every (w,h) in 0..6 x 0..6, critical widths {1,2,127..131,255..258} x h in 1..3, 1-bit widths off the "
-               "byte grid, 16384x1 (thorough: 16383..16385) and random shapes <= 64x64; x depth {1,8,16,32} x version x codec x "
+    ck.rule = ("shapes: every (w,h) in 0..6 x 0..6, critical widths {1,2,127..131,255..258} x h in 1..3 (thorough: 1..5), 1-bit widths off the "
+               "byte grid, 16384x1 (thorough: 16383..16385 x 1) and 24 (thorough: 400) random shapes <= 64x64; x depth {1,8,16,32} x version x codec x "
                "six content classes (constant, runs, ramp, alternating, noise, extremes) with fresh parameters; "
                "streams of an independent spec-following encoder (three PackBits strategies, prediction) and mutated streams; "
                "containers with their own geometry; non-trivial = raster with >= 2 bytes that is not constant")
@@ -393,11 +393,15 @@ def run():
                 spec_cases.append((((c, w, h, depth, version, len(s_model)), ("lit", list(s_model))), dg(rs)))
     ck.sample({"case": cases[len(cases) // 2][:2], "bytes": list(gen(cases[len(cases) // 2][1], cases[len(cases) // 2][0][5]))[:32]})
 
+    for g, ct, tag in (cases[len(cases) // 3], cases[-1]):
+        ck.sample({"case": [list(g), list(ct)], "shape_class": tag})
+    if spec_cases:
+        ck.sample({"independent_encoder_stream": spec_cases[len(spec_cases) // 2][0][0], "bytes": spec_cases[len(spec_cases) // 2][0][1][1][:48]})
     # the few very wide rasters cost seconds each inside coqc: their own shards, two cases per coqc
     big = [i for i, x in enumerate(cases) if x[2] == "huge"]
     small = [i for i, x in enumerate(cases) if x[2] != "huge"]
-    if len(spec_cases) > (24000 if ck.tier == "thorough" else 5000):
-        spec_cases = ck.rng.sample(spec_cases, 24000 if ck.tier == "thorough" else 5000)
+    if len(spec_cases) > (40000 if ck.tier == "thorough" else 5000):
+        spec_cases = ck.rng.sample(spec_cases, 40000 if ck.tier == "thorough" else 5000)
     for stream, fn, cs, chunk in (
             ("compress", "c_compress", [comp_cases[i] for i in small], 900),
             ("compress_wide", "c_compress", [comp_cases[i] for i in big], 2),
@@ -410,7 +414,7 @@ def run():
 
     # ---------------- malformed / wrong-geometry streams (model vs code only; the property says nothing about them)
     mal = []
-    nm = 6000 if ck.tier == "thorough" else 1500
+    nm = 20000 if ck.tier == "thorough" else 1500
     for _ in range(nm):
         w, h = ck.rng.randint(0, 9), ck.rng.randint(0, 4)
         depth, version, c = ck.rng.choice(DEPTHS), ck.rng.choice([1, 2]), ck.rng.randrange(4)
@@ -437,7 +441,7 @@ def run():
     # ---------------- prediction functions alone, any length; compress on data of the wrong length
     pe, pd, wl = [], [], []
     have_pred = hasattr(comp, "encode_prediction") and hasattr(comp, "decode_prediction")
-    for _ in range(4000 if ck.tier == "thorough" else 1200):
+    for _ in range(12000 if ck.tier == "thorough" else 1200):
         w, h, depth = ck.rng.randint(0, 7), ck.rng.randint(0, 4), ck.rng.choice([8, 16, 32, 32])
         n = max(0, h * row_bytes(w, depth) + ck.rng.choice([0, 0, 0, 0, -1, 1, -2, 2, 4, -4, 3]))
         ct = ck.rng.choice(classes(ck.rng))
@@ -471,7 +475,7 @@ def run():
 
     cont = []
     pool = [x for x in cases if x[2] in ("small", "bitw")] if ck.tier != "thorough" else [x for x in cases if x[2] != "huge"]
-    pool = ck.rng.sample(pool, min(len(pool), 9000 if ck.tier == "thorough" else 2400))
+    pool = ck.rng.sample(pool, min(len(pool), 20000 if ck.tier == "thorough" else 2400))
     pool += [x for x in cases if x[2] == "crit" and x[0][0] in (1, 3)][:: (1 if ck.tier == "thorough" else 5)]
     for g, ct, tag in pool:
         c, w, h, depth, version, n = g
